@@ -1,0 +1,62 @@
+//go:build verif
+
+// Contracts for the deductive verifier in /verif (comment-only; compiled only with -tags verif).
+
+package ctutil
+
+//@ func VerifySCT
+//@ props C05
+//@ site NewSignatureVerifier#1 as nv
+//@ site VerifySCTWithVerifier#1 as vw
+//@ requires validKey(pubKey)
+//@ requires forall j int :: 0 <= j && j < len(chain) ==> chain[j] != nil
+//@ ensures [unsuitable-key-is-an-error] nv.res1 != nil ==> result != nil && !vw.called
+//@ ensures [otherwise-the-verifiers-verdict] nv.res1 == nil ==> vw.called && result == vw.res
+//@ at nv assert [verifier-for-the-given-key] nv.pk == pubKey
+//@ at vw assert [same-chain-and-sct] vw.sv == nv.res0 && vw.chain == chain && vw.sct == sct && vw.embedded == embedded
+
+//@ func VerifySCTWithVerifier
+//@ props C05
+//@ site createLeaf#1 as cl
+//@ site VerifySCTSignature#1 as vs
+//@ requires verifierOK(sv)
+//@ requires forall j int :: 0 <= j && j < len(chain) ==> chain[j] != nil
+//@ ensures [no-verifier-is-an-error] sv == nil ==> result != nil && !vs.called
+//@ ensures [leaf-failure-is-an-error] cl.called && cl.res1 != nil ==> result != nil && !vs.called
+//@ ensures [otherwise-the-signature-verdict] sv != nil && cl.res1 == nil ==> vs.called && result == vs.res
+//@ at cl assert [leaf-for-that-chain-and-sct] cl.chain == chain && cl.sct == sct && cl.embedded == embedded
+//@ at vs assert [verifies-that-sct-over-that-leaf-with-that-verifier] vs.sct == *sct && vs.entry.Leaf == *cl.res0 && vs.s == *sv
+
+//@ func createLeaf
+//@ props C05
+//@ modifies nothing
+//@ arith int
+//@ site ContainsSCT#1 as cs
+//@ site IsPrecertificate#1 as ip
+//@ site MerkleTreeLeafForEmbeddedSCT#1 as me
+//@ site MerkleTreeLeafFromChain#1 as mc
+//@ requires forall j int :: 0 <= j && j < len(chain) ==> chain[j] != nil
+//@ ensures [leaf-xor-error] (result0 != nil) != (result1 != nil)
+//@ ensures [caller-view] result1 == nil ==> sct != nil && result0.TimestampedEntry != nil && (result0.TimestampedEntry.EntryType == ct.PrecertLogEntryType ==> result0.TimestampedEntry.PrecertEntry != nil)
+//@ ensures [empty-chain-or-missing-sct-is-an-error] len(chain) == 0 || sct == nil ==> result1 != nil
+//@ ensures [embedded-sct-must-be-in-the-leaf-certificate] cs.called && (cs.res1 != nil || !cs.res0) ==> result1 != nil && !me.called && !mc.called
+//@ ensures [embedded-means-precert-leaf-without-the-sct-list] result1 == nil && embedded ==> cs.called && me.called && result0 == me.res0 && !mc.called
+//@ ensures [otherwise-leaf-of-the-chain-as-submitted] result1 == nil && !embedded ==> mc.called && result0 == mc.res0 && !me.called
+//@ at cs assert [looks-in-the-leaf-certificate] cs.cert == chain[0] && cs.sct == sct
+//@ at me assert [at-the-sct-timestamp] me.chain == chain && me.timestamp == sct.Timestamp
+//@ at mc assert [entry-type-by-poison-at-the-sct-timestamp] mc.chain == chain && mc.timestamp == sct.Timestamp && mc.etype == (ip.res ? ct.PrecertLogEntryType : ct.X509LogEntryType)
+
+//@ func (*LogInfo).VerifySCTSignature
+//@ props C05
+//@ site VerifySCTSignature#1 as v
+//@ requires li != nil && li.Verifier != nil && validKey(li.Verifier.PubKey)
+//@ requires leaf.TimestampedEntry != nil && (leaf.TimestampedEntry.EntryType == ct.PrecertLogEntryType ==> leaf.TimestampedEntry.PrecertEntry != nil)
+//@ modifies leaf.TimestampedEntry.Timestamp
+//@ ensures [passes-exactly-when-the-log-verifier-accepts] result == nil <==> v.res == nil
+//@ at v assert [verifies-that-sct-over-the-leaf-at-the-sct-timestamp] v.sct == sct && v.entry.Leaf == leaf && leaf.TimestampedEntry.Timestamp == sct.Timestamp && v.s == *li.Verifier
+
+//@ func ContainsSCT
+//@ props C05
+//@ arith int
+//@ pure
+//@ ensures [nothing-to-look-in-is-not-found] cert == nil || sct == nil ==> !result0 && result1 == nil
